@@ -138,6 +138,14 @@ pub struct GenCfg {
     pub const_join_cond: bool,
     /// HAVING over an aggregate that is not literally one of the select-list aggregates
     pub having_other_agg: bool,
+    /// syntactic instances of the NULL-unsound rewrite rules: `a op a`, `a - a`, `a * 0`
+    pub null_unsound_patterns: bool,
+    /// correlated scalar (aggregate) subqueries
+    pub correlated_scalar: bool,
+    /// count(*) inside a derived table or scalar subquery (conflated with another count(*))
+    pub count_star_in_subquery: bool,
+    /// scalar (aggregate) subqueries anywhere
+    pub scalar_subquery: bool,
     pub max_depth: usize,
 }
 
@@ -180,6 +188,10 @@ impl GenCfg {
             arith_identity: true,
             const_join_cond: true,
             having_other_agg: true,
+            null_unsound_patterns: true,
+            correlated_scalar: true,
+            count_star_in_subquery: true,
+            scalar_subquery: true,
             max_depth: 3,
         }
     }
@@ -620,7 +632,7 @@ impl<'a, 'b> Gen<'a, 'b> {
         if self.cfg.case_expr {
             opts.push(3);
         }
-        if allow_sub && self.cfg.subqueries && self.cfg.subq_in_select {
+        if allow_sub && self.cfg.subqueries && self.cfg.subq_in_select && self.cfg.scalar_subquery {
             opts.push(4);
         }
         if opts.is_empty() {
@@ -631,6 +643,18 @@ impl<'a, 'b> Gen<'a, 'b> {
                 let op = ["+", "-", "*"][self.t.pick(3)];
                 let mut a = self.expr(scope, outer, Ty::Int, depth + 1, allow_sub);
                 let mut b = self.expr(scope, outer, Ty::Int, depth + 1, allow_sub);
+                if !self.cfg.null_unsound_patterns {
+                    if op == "-" && a == b {
+                        b = E::Lit(Val::Int(1), Ty::Int);
+                    }
+                    if op == "*" {
+                        for x in [&mut a, &mut b] {
+                            if matches!(x, E::Lit(Val::Int(0), _)) {
+                                *x = E::Lit(Val::Int(3), Ty::Int);
+                            }
+                        }
+                    }
+                }
                 if !self.cfg.arith_identity {
                     let ident = if op == "*" { 1 } else { 0 };
                     for x in [&mut a, &mut b] {
@@ -700,7 +724,14 @@ impl<'a, 'b> Gen<'a, 'b> {
         let ops: &[&str] = if ty == Ty::Bool { &["=", "<>"] } else { &["=", "<>", "<", "<=", ">", ">="] };
         let op = ops[self.t.pick(ops.len())];
         let a = self.expr(scope, outer, ty, depth + 1, allow_sub);
-        let b = self.expr(scope, outer, ty, depth + 1, allow_sub);
+        let mut b = self.expr(scope, outer, ty, depth + 1, allow_sub);
+        if !self.cfg.null_unsound_patterns && a == b {
+            b = match ty {
+                Ty::Int => E::Lit(Val::Int(1), ty),
+                Ty::Bool => E::Lit(Val::Bool(true), ty),
+                Ty::Str => E::Lit(Val::Str("a".into()), ty),
+            };
+        }
         E::Bin(op.into(), Box::new(a), Box::new(b))
     }
 
@@ -718,7 +749,10 @@ impl<'a, 'b> Gen<'a, 'b> {
                 let b = self.expr(scope, outer, Ty::Bool, depth + 1, allow_sub);
                 E::Bin(op.into(), Box::new(a), Box::new(b))
             }
-            2 => E::Not(Box::new(self.expr(scope, outer, Ty::Bool, depth + 1, allow_sub))),
+            2 => {
+                let sub_ok = allow_sub && self.cfg.not_in_subq;
+                E::Not(Box::new(self.expr(scope, outer, Ty::Bool, depth + 1, sub_ok)))
+            }
             3 => {
                 let ty = [Ty::Int, Ty::Str, Ty::Bool][self.t.pick(3)];
                 let neg = self.t.pick(2) == 1;
@@ -766,7 +800,11 @@ impl<'a, 'b> Gen<'a, 'b> {
         vis.extend(outer.iter().cloned());
         let cands = self.cols_of(&inner, ty);
         let agg = if ty == Ty::Int && (cands.is_empty() || self.t.chance(1, 3)) {
-            E::Agg("count".into(), None, false)
+            if self.cfg.count_star_in_subquery {
+                E::Agg("count".into(), None, false)
+            } else {
+                E::Agg("count".into(), Some(Box::new(Self::col_expr(&inner[0]))), false)
+            }
         } else if cands.is_empty() {
             return self.literal(ty);
         } else {
@@ -774,7 +812,7 @@ impl<'a, 'b> Gen<'a, 'b> {
             let f = if ty == Ty::Int { ["max", "min", "sum", "count"][self.t.pick(4)] } else { ["max", "min"][self.t.pick(2)] };
             E::Agg(f.into(), Some(Box::new(Self::col_expr(&c))), false)
         };
-        let where_ = if self.cfg.correlated && self.t.chance(1, 2) {
+        let where_ = if self.cfg.correlated && self.cfg.correlated_scalar && self.t.chance(1, 2) {
             Some(self.corr_pred(&inner, &vis, depth))
         } else if self.t.chance(1, 3) {
             Some(self.expr(&inner, &[], Ty::Bool, depth + 1, false))
@@ -1179,6 +1217,30 @@ impl<'a, 'b> Gen<'a, 'b> {
         self.cfg.derived = false;
         let mut q = self.query(depth);
         self.cfg = saved;
+        if !self.cfg.count_star_in_subquery {
+            fn fix(e: &mut E, col: &E) {
+                match e {
+                    E::Agg(f, a @ None, _) if f == "count" => *a = Some(Box::new(col.clone())),
+                    E::Bin(_, a, b) => {
+                        fix(a, col);
+                        fix(b, col);
+                    }
+                    _ => {}
+                }
+            }
+            let first = match &q.from[0].source {
+                Source::Table(t) => self.schema.iter().find(|td| &td.name == t).map(|td| E::Col(q.from[0].alias.clone(), td.cols[0].name.clone(), td.cols[0].ty)),
+                Source::Derived(_) => None,
+            };
+            if let Some(col) = first {
+                for item in q.select.iter_mut() {
+                    fix(&mut item.0, &col);
+                }
+                if let Some(h) = q.having.as_mut() {
+                    fix(h, &col);
+                }
+            }
+        }
         if !self.cfg.derived_expr_items {
             // replace scalar-expression items by the first column they mention (or drop them)
             fn first_col(e: &E) -> Option<E> {
